@@ -28,6 +28,7 @@ type Profile struct {
 	MapNShare   int
 	UnobsWrites bool // allow writes to unobserved vars from inside a pass
 	Cycles      bool // AddInput may close a cycle
+	DeadObs     int  // share of Observe operations aimed at a node of a discarded bind generation (a handle the user function kept; out of 100)
 	Inner       int  // share of Observe operations aimed at a node created inside a bind scope (out of 100)
 	Wide        bool // MapN nodes with 65..150 inputs (past the edge index threshold)
 	Sentinels   int  // weight of sentinel operations (Go-only stream)
@@ -304,6 +305,20 @@ func (g *Gen) Next() Op {
 			}
 		case k < p.WNew+p.WObserve:
 			nodes := g.userNodes()
+			if g.R.Intn(100) < p.DeadObs {
+				// a node of a discarded right-hand side (no longer in the graph, invalidated), whose
+				// storage the library has not reissued: the user function kept the handle
+				var dead []int
+				for id, ref := range g.E.Nodes {
+					if ref != nil && ref.Scope != -1 && ref.Inc != nil && !ref.Recycled && ref.Kind != "BindLhs" && ref.Kind != "Pair" && !g.E.Registered(id) && g.E.Dead(id) {
+						dead = append(dead, id)
+					}
+				}
+				if len(dead) > 0 {
+					sortInts(dead)
+					return Op{K: "Observe", A: g.pick(dead)}
+				}
+			}
 			if g.R.Intn(100) < p.Inner {
 				// a node a bind function created, still part of the graph (a handle the user
 				// function could have kept); never a handle whose storage the library reissued
